@@ -9,3 +9,16 @@ package transport
 //@   requires u != nil
 //@   modifies *
 //@   ensures [C18:no-closer] old(u.closer) == nil ==> err == nil
+
+// The two transports under udpWithFallback (assumptions: an exchange either returns a fresh,
+// well-formed message or an error; the query bytes are only read).
+//@ func (t *PipelineTransport) ExchangeContext(ctx context.Context, m []byte) (r *dnsmsg.Msg, err error)
+//@   trusted
+//@   modifies nothing
+//@   ensures err == nil ==> r != nil && fresh(r) && wfMsg(r)
+//@   ensures err != nil ==> r == nil
+//@ func (t *ReuseConnTransport) ExchangeContext(ctx context.Context, m []byte) (r *dnsmsg.Msg, err error)
+//@   trusted
+//@   modifies nothing
+//@   ensures err == nil ==> r != nil && fresh(r) && wfMsg(r)
+//@   ensures err != nil ==> r == nil
